@@ -3000,6 +3000,10 @@ namespace bloch::compiler {
             }
         }
         bool superSeen = false;
+        // Statements after a top-level 'return' are unreachable: their final-field assignments do
+        // not count towards "exactly once", but they are still checked like any other statement.
+        bool returned = false;
+        auto reachableFinalAssignments = m_constructorFinalAssignments;
         if (node.body) {
             auto& stmts = node.body->statements;
             for (size_t i = 0; i < stmts.size(); ++i) {
@@ -3020,11 +3024,16 @@ namespace bloch::compiler {
                     m_allowSuperConstructorCall = false;
                 } else {
                     stmts[i]->accept(*this);
-                    if (dynamic_cast<ReturnStatement*>(stmts[i].get()))
-                        break;
+                    if (!returned && dynamic_cast<ReturnStatement*>(stmts[i].get())) {
+                        returned = true;
+                        reachableFinalAssignments = m_constructorFinalAssignments;
+                        m_constructorFinalAssignments.clear();
+                    }
                 }
             }
         }
+        if (returned)
+            m_constructorFinalAssignments = std::move(reachableFinalAssignments);
         if (ctorClassInfo && !superSeen && !ctorClassInfo->base.empty()) {
             const ClassInfo* base = findClass(ctorClassInfo->base);
             bool matched = false;
